@@ -457,7 +457,7 @@ def hier_ctor_event(rng):
         shaped = 'dup'
     pyrows = [P.dec(r) for r in rows]
     cls = rng.choice([sf.IndexHierarchy, sf.IndexHierarchy, sf.IndexHierarchyGO])
-    routes = ['ih_from_labels', 'ih_from_type_blocks', 'ih_from_frame_set_index']
+    routes = ['ih_from_labels', 'ih_from_type_blocks', 'ih_from_frame_set_index', 'ih_from_labels_delimited']
     is_tree = rows == _tree_order(rows) and len({json.dumps(r) for r in rows}) == len(rows)
     if is_tree:
         routes += ['ih_from_tree', 'ih_from_index_items']
@@ -476,6 +476,9 @@ def hier_ctor_event(rng):
         route = 'ih_from_labels'
     if route == 'ih_from_labels':
         fn = lambda: cls.from_labels(pyrows)
+    elif route == 'ih_from_labels_delimited':
+        delim = rng.choice([' ', '|', ';'])
+        fn = lambda: cls.from_labels_delimited([delim.join(repr(x) for x in t) for t in pyrows], delimiter=delim)
     elif route == 'ih_from_type_blocks':
         def fn():
             a0 = np.array([t[0] for t in pyrows])
